@@ -82,7 +82,7 @@ def run(report, tier, seed):
     need_sites = ["x0", "initialise_coordinate_directions", "main/trial", "main/final_check", "geom/check_and_fix_geometry",
                   "geom/soft_restart"]
     missing = [s for s in need_sites if s not in fsites]
-    if missing or len(triples) < 20 or not tags.get("optin_linalgerror"):
+    if missing or len(triples) < 15 or not tags.get("optin_linalgerror"):
         raise common.HarnessError("C08 exploration is vacuous: fault sites missing %s, %d (site, exit) pairs, optin=%s" % (
             missing, len(triples), tags.get("optin_linalgerror")))
     cov["rule"] = ("for every configuration, every evaluation index k of the reference run x every fault kind is one execution "
